@@ -1174,6 +1174,16 @@ async fn settle() {
 
 /// `recv()` raced against quiescence
 async fn recv_or_pending<C: Coll>(sub: &mut C::Sub) -> String {
+    // First a `recv()` that is polled once and dropped if it is pending (a caller's `select!` / timeout losing
+    // the race): a cancelled `recv` must not consume or skip anything.
+    {
+        let mut fut = Box::pin(C::recv(sub));
+        let waker = futures::task::noop_waker();
+        let mut cx = std::task::Context::from_waker(&waker);
+        if let std::task::Poll::Ready(s) = fut.as_mut().poll(&mut cx) {
+            return s;
+        }
+    }
     match tokio::time::timeout(Duration::from_millis(1), C::recv(sub)).await {
         Ok(s) => s,
         Err(_) => "pending".into(),
